@@ -26,6 +26,8 @@ structure MSt where
 inductive MOp where
   | allowWrite
   | enter
+  | enterInterrupted        -- __enter__ cut short by ANY exception raised inside it (a BaseException such as KeyboardInterrupt
+                            -- included): the handle it had opened is closed, the mode reset, no context is left behind
   | exit                    -- normal exit or exit by exception: __exit__ does the same
   | mutate (op : Op) (implicitCtx : Bool)
       -- add_block / remove_block / replace_block / a property setter; implicitCtx: the four setters that
@@ -45,7 +47,9 @@ def mstep (s : MSt) : MOp → MSt × Bool
   | .enter =>
     match openFile s.disk with
     | some o => ({ s with inCtx := true, handle := some s.mode, obj := some o }, false)
-    | none => ({ s with inCtx := true, handle := some s.mode }, true)
+    | none => ({ s with inCtx := false, mode := false, handle := none }, true)
+        -- (since the repair of /repo: a refused __enter__ closes its handle, resets the mode and leaves no context)
+  | .enterInterrupted => ({ s with inCtx := false, mode := false, handle := none }, true)
   | .exit => ({ s with inCtx := false, mode := false, handle := none }, false)
   | .mutate op impl =>
     if s.writable then
